@@ -597,7 +597,20 @@ def _hub_unary_plus(P, i, p):
   return getattr(operator, p["op"])(x) + x
 
 
+def _hub_attr_expr(P, i, p):
+  # attribute / call broadcasting on a 2-use hub: |x|^2 = re^2 + im^2
+  x = P.ls.thub(S(P, i[0]), 3 if p["how"] == "attr" else 2)
+  if p["how"] == "attr":
+    return x.real * x.real + x.imag
+  if p["how"] == "call":
+    return x.conjugate() + x
+  return x.real + x.conjugate()
+
+
 stage("thub_expr")((_thub_expr, lambda i, p: M.m_each(i)))
+stage("hub_attr_expr", params=lambda W: {"how": W.pick("how", ["attr", "call",
+                                                               "both"])})(
+  (_hub_attr_expr, lambda i, p: M.m_each(i)))
 stage("hub_unary_plus", params=lambda W: {"op": W.pick("unop", ANY_UNOPS)})(
   (_hub_unary_plus, lambda i, p: M.m_each(i)))
 stage("tee_sum")((_tee_sum, lambda i, p: M.m_each(i)))
